@@ -96,7 +96,13 @@ def run(check, prog):
     # ... including its multi-channel branch (rule shared with C06)
     from . import c06
     c06.illumination_preparation(check, prog)
+    # each channel's field under its own label (rule shared with C06)
+    c06.channels(check, prog)
     f9_point_coordinates(check, prog)
+    # the points the theory is asked at are the detector's, in units of 1/k, for
+    # every kind of detector (rule shared with C07)
+    from . import c07
+    c07.coordinates(check, prog)
     f8_wiring(check, prog)
     f5_state(check, prog)
 
